@@ -4,6 +4,11 @@ import json, os, subprocess
 V = os.path.dirname(os.path.abspath(__file__))
 
 CHECKS = {
+ 'C13': dict(cat='model_checking', tech='complete enumeration of (length, key family, count, threshold, ordered subset) for counts 1..6 and a stated structured family for counts 7..16 on the real bels code against a spec-level GF(2)[x] reference',
+             text='len {16,24,32} x key family {standard, belsGenMi from tapes, belsGenMid from identifiers} x count 1..6 (quick 1..5 + 6 with filler values) x threshold 1..count x secret {0,1,FF..,filler} x generator output {00..,FF..,filler} x EVERY ordered subset of every size: '
+                  'each share = ((x^l + m0) k + s) mod mi from the reference with exactly (threshold-1) len tape octets consumed; recovery from >= threshold shares in any order = the secret; below threshold = the reference CRT value (and not the secret for filler values); '
+                  'counts 7..16: cyclic windows, rotations and reversals (bounded, reported as such); key generation = reference, valid, distinct from m0, deterministic in the identifier; duplicated keys / numbers -> ERR_BAD_PUBKEY.',
+             note='trusted: ref/bels.py, ref/polys.py (vector-gated)', ref='4/C13'),
  'C02': dict(cat='model_checking', tech='bounded exhaustive enumeration of boundary-class tuples (private key x hash x OID x generator tape x t x key length) on the real bign code against a spec-level reference; every single-bit flip and boundary substitution of every verifier input judged by the reference equations',
              text='3 standard curves x private keys {1,2,q-2,q-1,appendix,filler} x hashes {0,1,q-1,q,q+1,2^2l-1,...} x OIDs x 12 generator tape shapes (values in [q,p), 64/65 rejections) x deterministic-signature t classes: sign/sign2/idsign/idsign2 = reference value and verify; '
                   'engineered (d,k,H) with H >= q hitting every branch of the final subtraction; key generation = reference rejection sampling and passes validation; DH symmetric; key transport inverse for lengths 16..48; '
